@@ -337,7 +337,20 @@ def chk_event_card(res, n, c, modes, exact, overlong):
         return
     if not same_number(r, exact):
         cls = "event-has-orbit-longer-than-modes" if overlong else "all-orbits-fit"
-        res.violation(f"C19|event_cardinality|exact-count|{cls}", f"event_cardinality(photon_number={n}, max_count_per_mode={c}, modes={modes}) = {r!r}; exact number of samples = {exact}", case)
+        lib = _lib_cards(n, c, modes)
+        if lib is not None and same_number(r, sum(lib)):
+            # the summation itself is right: the deviation is the one of orbit_cardinality on the orbits of the event
+            res.violation(f"C19|event_cardinality|exact-count|{cls}", f"event_cardinality(photon_number={n}, max_count_per_mode={c}, modes={modes}) = {r!r}; exact number of samples = {exact} (the value equals the sum of orbit_cardinality over the orbits of the event, so the deviation is inherited from orbit_cardinality)", case)
+        else:
+            res.violation("C19|event_cardinality|own-summation", f"event_cardinality(photon_number={n}, max_count_per_mode={c}, modes={modes}) = {r!r}; exact number of samples = {exact}; not even the sum of orbit_cardinality over the partitions of {n} with parts <= {c}" + (f" (= {sum(lib)!r})" if lib is not None else ""), case)
+
+
+def _lib_cards(n, c, modes):
+    """the library's own orbit_cardinality over MY partitions of n with parts <= c (None if it raises)."""
+    try:
+        return [sim.orbit_cardinality(list(p), modes) for p in partitions(n, c)]
+    except Exception:  # noqa: BLE001
+        return None
 
 
 def chk_sample_to(res, sample):
@@ -367,6 +380,13 @@ def chk_sample_to(res, sample):
             continue
         if (r is None) != (expe is None) or (r is not None and not same_number(r, expe)):
             res.violation("C19|sample_to_event|definition", f"sample_to_event({sample}, {c}) = {r!r}, definition gives {expe}", {"kind": "sample_to", "sample": sample})
+
+
+def _draw_probs(d):
+    """probabilities of the menu entries of one np.random.choice draw (p=None means uniform)."""
+    if d.args["p"] is None:
+        return [1.0 / len(d.menu)] * len(d.menu)
+    return [float(x) for x in d.args["p"] if x > 0]
 
 
 def _is_sample(s, modes):
@@ -450,14 +470,22 @@ def chk_event_to_sample(res, n, c, modes, menu_name, only=None):
         case = {"kind": "event_to_sample", "n": n, "c": c, "modes": modes, "menu": menu_name, "answers": answers}
         choice = choice or had_choice(draws)
         desc = f"event_to_sample(photon_number={n}, max_count_per_mode={c}, modes={modes}) under chooser answers {answers}"
-        if first and draws and draws[0].fn == "choice" and draws[0].args["p"] is not None and total > 0:
+        if first and draws and draws[0].fn == "choice" and total > 0:
             first = False
-            p = sorted(float(x) for x in draws[0].args["p"] if x > 0)
+            p = sorted(_draw_probs(draws[0]))
             exp = sorted(cards[q] / total for q in fitting)
-            if len(p) != len(exp):
-                res.violation("C19|event_to_sample|orbit-distribution|impossible-orbit-offered", f"{desc}: draws among {len(p)} orbits with non-zero probability, only {len(exp)} orbits of the event fit into {modes} modes", dict(case, answers=[]))
-            elif any(abs(a - b) > 1e-9 for a, b in zip(p, exp)):
-                res.violation("C19|event_to_sample|orbit-distribution|weights", f"{desc}: orbit probabilities {p[:6]} differ from cardinality/|E| = {exp[:6]} (uniform sampling from the event needs exact weights)", dict(case, answers=[]))
+            if len(p) != len(exp) or any(abs(a - b) > 1e-9 for a, b in zip(p, exp)):
+                lib = _lib_cards(n, c, modes)
+                inherited = False
+                if lib is not None and sum(lib) > 0:
+                    lp = sorted(float(x) / float(sum(lib)) for x in lib if x > 0)
+                    inherited = len(lp) == len(p) and all(abs(a - b) <= 1e-9 for a, b in zip(p, lp))
+                if not inherited:
+                    res.violation("C19|event_to_sample|orbit-distribution|own", f"{desc}: orbit probabilities {p[:6]} differ from cardinality/|E| = {exp[:6]} and are not even orbit_cardinality/sum over the orbits of the event", dict(case, answers=[]))
+                elif len(p) != len(exp):
+                    res.violation("C19|event_to_sample|orbit-distribution|impossible-orbit-offered", f"{desc}: draws among {len(p)} orbits with non-zero probability, only {len(exp)} orbits of the event fit into {modes} modes", dict(case, answers=[]))
+                else:
+                    res.violation("C19|event_to_sample|orbit-distribution|weights", f"{desc}: orbit probabilities {p[:6]} differ from cardinality/|E| = {exp[:6]} (uniform sampling from the event needs exact weights; the values equal orbit_cardinality/sum, so the deviation is inherited from orbit_cardinality)", dict(case, answers=[]))
         if out[0] == "exc":
             if total > 0:
                 complete = False
@@ -475,9 +503,9 @@ def chk_event_to_sample(res, n, c, modes, menu_name, only=None):
         if sum(s) != n or max(s) > c:
             res.violation("C19|event_to_sample|wrong-event", f"{desc} returned {s!r}: {sum(s)} photons, max {max(s)} per mode", case)
         if full:
-            if len(draws) == 2 and draws[0].fn == "choice" and draws[1].fn == "shuffle" and draws[0].args["p"] is not None:
+            if len(draws) == 2 and draws[0].fn == "choice" and draws[1].fn == "shuffle":
                 d = draws[0]
-                prob[tuple(int(x) for x in s)] += float(d.args["p"][int(d.menu[d.chosen])]) / len(draws[1].menu)
+                prob[tuple(int(x) for x in s)] += _draw_probs(d)[d.chosen] / len(draws[1].menu)
             else:
                 structured = False
     if choice or total >= 2:
